@@ -19,6 +19,14 @@ int main(int argc,char **argv)
 	std::string what=argv[1];
 	witness w; if(!w.load(argv[2])) return 2;
 	std::vector<unsigned char> &f=w.bufs["file"];
+	// the verifier's clock is symbolic: keep the RELATION between the stored deadline and `now` when moving to the real clock
+	if(f.size()>=8) {
+		int64_t to=0; memcpy(&to,&f[0],8);
+		long long wn=w.vals["now"]; time_t rn=time(0);
+		__int128 delta=(__int128)to-(__int128)wn; if(delta>1000000) delta=1000000; if(delta<-1000000) delta=-1000000;
+		if(delta>=0) delta+=5; else delta-=5;      // stay clear of the second boundary while the test runs
+		to=(int64_t)(rn+(long long)delta); memcpy(&f[0],&to,8);
+	}
 	char dir[]="/var/tmp/cppcms-verif-sess.XXXXXX"; if(!mkdtemp(dir)) return 2;
 	std::string path=std::string(dir)+"/f";
 	int fd=open(path.c_str(),O_CREAT|O_RDWR,0600); if(fd<0) return 2;
